@@ -90,6 +90,7 @@ type c40EtcdWorld struct {
 	c40World
 	memberless  []string
 	staleConfig []string
+	noSnapshot  bool // fresh cluster: nobody has published /kafscale/metadata/snapshot yet
 }
 
 // c40EtcdPopulate fills the embedded etcd; every failure of a populate step is an environment
@@ -102,6 +103,8 @@ func c40EtcdPopulate(t *rapid.T, ctx context.Context, cli *clientv3.Client, endp
 	if err != nil {
 		return w, fmt.Errorf("clear etcd: %w", err)
 	}
+	// fresh cluster: the operator has not published a snapshot yet (other keys may exist already)
+	w.noSnapshot = rapid.IntRange(0, 3).Draw(t, "noSnapshotYet") == 2
 	// operator-style snapshot
 	nb := rapid.IntRange(1, 3).Draw(t, "brokers")
 	var brokers []protocol.MetadataBroker
@@ -111,6 +114,9 @@ func c40EtcdPopulate(t *rapid.T, ctx context.Context, cli *clientv3.Client, endp
 	var topics []protocol.MetadataTopic
 	used := map[string]bool{}
 	nt := rapid.IntRange(0, 4).Draw(t, "topics")
+	if w.noSnapshot {
+		nt = 0
+	}
 	for i := 0; i < nt; i++ {
 		name := rapid.SampledFrom(c40EtcdTopicPool).Draw(t, "topicName")
 		if used[name] {
@@ -132,19 +138,29 @@ func c40EtcdPopulate(t *rapid.T, ctx context.Context, cli *clientv3.Client, endp
 	if err != nil {
 		return w, err
 	}
-	pctx, cancel := context.WithTimeout(ctx, 10*time.Second)
-	_, err = cli.Put(pctx, "/kafscale/metadata/snapshot", string(payload))
-	cancel()
-	if err != nil {
-		return w, fmt.Errorf("put snapshot: %w", err)
+	if !w.noSnapshot {
+		pctx, cancel := context.WithTimeout(ctx, 10*time.Second)
+		_, err = cli.Put(pctx, "/kafscale/metadata/snapshot", string(payload))
+		cancel()
+		if err != nil {
+			return w, fmt.Errorf("put snapshot: %w", err)
+		}
 	}
 	// broker-style writes through a store of their own
 	broker, err := metadata.NewEtcdStore(ctx, metadata.ClusterMetadata{}, metadata.EtcdStoreConfig{Endpoints: endpoints})
 	if err != nil {
 		return w, fmt.Errorf("broker store: %w", err)
 	}
-	defer func() { _ = broker.Close() }()
-	if rapid.IntRange(0, 3).Draw(t, "brokerCreatesTopic") == 2 {
+	defer func() {
+		_ = broker.Close()
+		if w.noSnapshot {
+			// the populate steps themselves must leave the snapshot key absent
+			dctx, cancel := context.WithTimeout(ctx, 10*time.Second)
+			_, _ = cli.Delete(dctx, "/kafscale/metadata/snapshot")
+			cancel()
+		}
+	}()
+	if !w.noSnapshot && rapid.IntRange(0, 3).Draw(t, "brokerCreatesTopic") == 2 {
 		name := "made-by-broker"
 		if _, err := broker.CreateTopic(ctx, metadata.TopicSpec{Name: name, NumPartitions: 2, ReplicationFactor: 1}); err == nil {
 			w.topics = append(w.topics, name)
@@ -207,6 +223,9 @@ func c40EtcdPopulate(t *rapid.T, ctx context.Context, cli *clientv3.Client, endp
 		}
 		if err := broker.PutConsumerGroup(ctx, g); err != nil {
 			return w, fmt.Errorf("PutConsumerGroup: %w", err)
+		}
+		if w.noSnapshot && rapid.Bool().Draw(t, "earlyCommit") {
+			_ = broker.CommitConsumerOffset(ctx, gid, "orders", 0, int64(rapid.IntRange(0, 500).Draw(t, "earlyOffset")), "")
 		}
 		for _, tp := range w.topics {
 			for p := 0; p < w.partitions[tp]; p++ {
@@ -287,6 +306,9 @@ func TestVF_C40_EtcdTools(t *testing.T) {
 		rec.set(store)
 		if len(w.memberless) > 0 {
 			st.Class("memberless-group-present")
+		}
+		if w.noSnapshot {
+			st.Class("no-snapshot-published-yet")
 		}
 		if len(w.staleConfig) > 0 {
 			st.Class("stored-config-older-than-partition-count")
